@@ -41,6 +41,16 @@ OBSERVABLE = {
     'Variable': {'bindings_', 'cfg_node_to_bindings_', 'data_to_binding_', 'id_'},
     'Origin': {'source_sets', 'where'},
 }
+# every data member of the graph classes (typegraph.h).  A member that is not listed is state the protocol knows nothing
+# about (e.g. a cache filled by a const accessor that outlives InvalidateSolver()): a failed frame obligation.
+DECLARED_FIELDS = {
+    'Variable': {'bindings_', 'cfg_node_to_bindings_', 'data_to_binding_', 'id_', 'program_'},
+    'Binding': {'data_', 'id_', 'node_to_origin_', 'origins_', 'program_', 'variable_'},
+    'CFGNode': {'backward_reachability_', 'bindings_', 'condition_', 'id_', 'incoming_', 'name_', 'outgoing_', 'program_'},
+    'Origin': {'source_sets', 'where'},
+    'Program': {'backward_reachability_', 'cfg_nodes_', 'default_data_', 'entrypoint_', 'next_binding_id_', 'next_variable_id_',
+                'solver_', 'solver_metrics_', 'variables_'},
+}
 MUTATING_METHODS = {'push_back', 'emplace', 'emplace_back', 'insert', 'erase', 'clear', 'resize', 'pop_back',
                     'swap', 'assign', 'reset'}
 REACHABILITY_MUTATORS = {'add_node', 'add_connection'}
@@ -495,6 +505,21 @@ def extra_obligations(repo):
   o.owner = TG_CC
   o.undecided_if_no_witness = True
   out.append(o)
+  for cls, want in sorted(DECLARED_FIELDS.items()):
+    have_f, mut = set(), set()
+    for d in _docs(repo, TG_CC, NS + '::' + cls):
+      if d.get('kind') == 'CXXRecordDecl' and d.get('name') == cls and d.get('completeDefinition'):
+        for c in d.get('inner', []):
+          if c.get('kind') == 'FieldDecl':
+            have_f.add(c['name'])
+            if c.get('mutable'):
+              mut.add(c['name'])
+    extra = sorted(have_f - want)
+    o = Obligation('C08/%s::%s/frame#fields' % (TG_H, cls), 'frame', [], z3.BoolVal(bool(have_f) and not extra and not mut), 
+                   detail='data members of %s are the ones the invalidation protocol accounts for (new: %s; mutable: %s)' % (cls, extra, sorted(mut)))
+    o.owner = '%s::%s' % (TG_H, cls)
+    o.undecided_if_no_witness = True
+    out.append(o)
   obs = observed_fields(repo)
   allobs = set().union(*OBSERVABLE.values())
   o = Obligation('C08/%s/frame#observable' % SOLVER_CC, 'frame', [], z3.BoolVal(obs <= allobs),
